@@ -475,11 +475,15 @@ theorem asChar_s {n : Nat} : Sim (asChar n) (asChar n) := by
   unfold asChar
   sim []
 
+theorem asEscapedChar_s {n : Nat} : Sim (asEscapedChar n) (asEscapedChar n) := by
+  unfold asEscapedChar
+  sim [asChar_s]
+
 theorem decodeElispCharEscape_s {f f' : Nat} (h : f ≤ f') :
     Sim (decodeElispCharEscape f) (decodeElispCharEscape f') := by
   unfold decodeElispCharEscape
   sim [nextOrEofChar_s, nextOrEof_s, decodeElispHexEscape_s, decodeElispUniEscape_s,
-    decodeElispOctalEscape_s, asChar_s, decodeUtf8Sequence_s]
+    decodeElispOctalEscape_s, asChar_s, asEscapedChar_s, decodeUtf8Sequence_s]
 
 theorem parseElispChar_s {f f' : Nat} (h : f ≤ f') : Sim (parseElispChar f) (parseElispChar f') := by
   unfold parseElispChar
